@@ -388,13 +388,30 @@ def imager_regen(repo):
     # the statements of the loop body that are not running-extreme updates are pinned as text: a private copy is taken
     # BEFORE the in-place skew (so the caller's diagram is never written), then column minima / maxima
     rest = [st for st in loop[0].body if not (isinstance(st, ast.If) and ast.unparse(st.test).strip() != "skew")]
-    want = ["pers_dgm = np.copy(pers_dgm)",
-            "if skew:\n    pers_dgm[:, 1] = pers_dgm[:, 1] - pers_dgm[:, 0]",
-            "min_b, min_p = pers_dgm.min(axis=0)",
-            "max_b, max_p = pers_dgm.max(axis=0)"]
-    if ast.unparse(loop[0].target) != "pers_dgm" or ast.unparse(loop[0].iter) != "pers_dgms" or len(rest) != len(want) or \
-            any(ast.dump(a) != ast.dump(ast.parse(w).body[0]) for a, w in zip(rest, want)):
-        raise Unsupported("line %d: fit: the loop over the diagrams is no longer [copy; skew the copy in place; column min; column max; "
+    def is_private_copy(st):
+        # pers_dgm = <an expression that is known to COPY pers_dgm>  (np.asarray / np.asanyarray / a bare name do not)
+        if not (isinstance(st, ast.Assign) and len(st.targets) == 1 and ast.unparse(st.targets[0]) == "pers_dgm"
+                and isinstance(st.value, ast.Call)):
+            return False
+        f = ast.unparse(st.value.func).replace("numpy.", "np.")
+        args = [ast.unparse(a) for a in st.value.args]
+        kws = {k.arg: ast.unparse(k.value) for k in st.value.keywords}
+        if f in ("np.copy", "copy.deepcopy", "copy.copy", "deepcopy") and args[:1] == ["pers_dgm"]:
+            return f != "copy.copy" or True
+        if f == "np.array" and args[:1] == ["pers_dgm"] and kws.get("copy", "True") == "True":
+            return set(kws) <= {"copy", "dtype"}
+        if f == "pers_dgm.copy" and not args:
+            return True
+        if f == "pers_dgm.astype" and kws.get("copy", "True") == "True":
+            return True
+        return False
+    skew_if = ast.parse("if skew:\n    pers_dgm[:, 1] = pers_dgm[:, 1] - pers_dgm[:, 0]").body[0]
+    mins = {ast.dump(ast.parse(w).body[0]) for w in ("min_b, min_p = pers_dgm.min(axis=0)", "max_b, max_p = pers_dgm.max(axis=0)")}
+    ok = (ast.unparse(loop[0].target) == "pers_dgm" and ast.unparse(loop[0].iter) == "pers_dgms" and len(rest) == 4
+          and is_private_copy(rest[0]) and ast.dump(rest[1]) == ast.dump(skew_if)
+          and {ast.dump(rest[2]), ast.dump(rest[3])} == mins)
+    if not ok:
+        raise Unsupported("line %d: fit: the loop over the diagrams is no longer [private copy; skew the copy in place; column min / max; "
                           "four running-extreme updates]: %s" % (loop[0].lineno, " / ".join(ast.unparse(a).split("\n")[0] for a in rest)[:300]))
     names = ("min_birth", "max_birth", "min_pers", "max_pers")
     env = {"min_birth": V("num", "mnb"), "max_birth": V("num", "mxb"), "min_pers": V("num", "mnp"), "max_pers": V("num", "mxp"),
@@ -941,8 +958,14 @@ def heat_regen(repo):
     if len(body) != 5:
         raise Unsupported("line %d: evalHeatKernel: expected initialisation, two conversions, one loop nest, one return" % g.lineno)
     _same(body[0], "kSigma = 0", "the accumulator initialisation")
-    _same(body[1], "I1 = np.array(dgm1)", "the conversion of dgm1")
-    _same(body[2], "I2 = np.array(dgm2)", "the conversion of dgm2")
+    for st, nm, arg in ((body[1], "I1", "dgm1"), (body[2], "I2", "dgm2")):
+        # a float64 array of the argument (np.array(x, dtype=float); the pinned tree had np.array(x): narrow integer input wrapped)
+        ok = ast.dump(st) in (ast.dump(ast.parse("%s = np.array(%s, dtype=float)" % (nm, arg)).body[0]),
+                              ast.dump(ast.parse("%s = np.array(%s, dtype=np.float64)" % (nm, arg)).body[0]),
+                              ast.dump(ast.parse("%s = np.asarray(%s, dtype=float)" % (nm, arg)).body[0]),
+                              ast.dump(ast.parse("%s = np.asarray(%s, dtype=np.float64)" % (nm, arg)).body[0]))
+        if not ok:
+            _fail(st, "the conversion of %s is no longer a float64 array of the argument: %s" % (arg, ast.unparse(st)[:80]))
     outer = body[3]
     if not (isinstance(outer, ast.For) and ast.unparse(outer.iter) == "range(I1.shape[0])" and ast.unparse(outer.target) == "i"
             and not outer.orelse and len(outer.body) == 2):
